@@ -569,7 +569,7 @@ func generate() {
 	run.Extra["colliding_families"] = len(p.fams)
 	run.Extra["empty_bucket_family"] = len(p.emptyFam)
 	enumerate(p)
-	nHist, nMal := 220, 30
+	nHist, nMal := 170, 25
 	if run.Thorough() {
 		nHist, nMal = 4000, 400
 	}
